@@ -31,7 +31,7 @@ func main() {
 	kflag := flag.Int("k", 0, "max sequence length (default 4 quick / 6 thorough)")
 	nflag := flag.Int("n", 0, "menu size (default 6 quick / all thorough)")
 	nomemo := flag.Bool("nomemo", false, "disable state memoisation")
-	gcp := flag.Int("gc", 400, "GC percent")
+	gcp := flag.Int("gc", 30, "GC percent")
 	r := vk.New("model_checking")
 	debug.SetGCPercent(*gcp)
 	r.SetBudget(150*time.Second, 25*time.Minute)
@@ -68,6 +68,11 @@ func main() {
 	pprof.StopCPUProfile()
 	fmt.Printf("explore: nodes=%d txs=%d states=%d memo_hits=%d mismatches=%d in %.1fs (env creation %.1f s, DeliverTx %.1f s summed over workers)\n", x.Nodes.Load(), x.Txs.Load(), x.States.Load(), x.MemoHits.Load(), len(x.Mis), time.Since(t0).Seconds(), float64(x.EnvNanos.Load())/1e9, float64(rx.TxNanos.Load())/1e9)
 	x.Report()
+	gd := x.GoDiffs()
+	for _, d := range gd {
+		fmt.Printf("OBSERVATION go-vs-gno (no persistence involved): %s seq=%q gno=%q go=%q (%d sequences differ)\n", d.Family, d.Seq, d.Gno, d.Go, d.Count)
+		r.Outcome("obs:go-vs-gno-in-memory-difference:" + d.Family)
+	}
 	var names []string
 	for _, f := range sel {
 		names = append(names, fmt.Sprintf("%s(%s)", f.Name, f.Ops))
@@ -75,6 +80,6 @@ func main() {
 	r.Sample(map[string]any{"families": names, "k": k})
 	r.Finish("all op sequences <= k x all cuts into transactions", !r.Capped(), map[string]any{
 		"states": x.States.Load(), "transitions": x.Txs.Load(), "traces_validated_against_impl": x.Txs.Load(), "depth": k,
-		"histories": x.Nodes.Load(), "memo_hits": x.MemoHits.Load(),
+		"histories": x.Nodes.Load(), "memo_hits": x.MemoHits.Load(), "go_vs_gno_in_memory_differences": gd,
 	})
 }
